@@ -17,10 +17,13 @@ import (
 )
 
 type PropUnit struct {
-	Unit string   `json:"unit"`
-	Sel  []string `json:"sel"` // "all", "shared", "tag", "safety", or explicit kinds
-	Lock bool     `json:"lock,omitempty"`
-	Seq  bool     `json:"seq,omitempty"`
+	Unit     string   `json:"unit"`
+	Sel      []string `json:"sel"` // "all", "shared", "tag", "safety", or explicit kinds
+	Lock     bool     `json:"lock,omitempty"`
+	Seq      bool     `json:"seq,omitempty"`
+	Guard    bool     `json:"guard,omitempty"`    // C14: lock-guard discipline on every access
+	Exclude  []string `json:"exclude,omitempty"`  // keys left out of a pattern
+	Closures bool     `json:"closures,omitempty"` // a pattern also matches closures ($)
 }
 
 type PropCfg struct {
@@ -33,6 +36,7 @@ type PropCfg struct {
 	MinObligs   int        `json:"min_obligations"`
 	Extra       []string   `json:"extra_checks,omitempty"`
 	CFB         bool       `json:"cfb,omitempty"`
+	OnlySel     bool       `json:"only_selected,omitempty"` // do not attempt obligations outside the selection
 }
 
 type KnownFinding struct {
@@ -167,8 +171,16 @@ func cmdCheck(args []string) {
 		var keys []string
 		if strings.HasSuffix(pu.Unit, "*") {
 			for k := range env.funcs {
-				if strings.HasPrefix(k, strings.TrimSuffix(pu.Unit, "*")) && !strings.Contains(k, "$") {
-					keys = append(keys, k)
+				if strings.HasPrefix(k, strings.TrimSuffix(pu.Unit, "*")) && (pu.Closures || !strings.Contains(k, "$")) {
+					ex := false
+					for _, e := range pu.Exclude {
+						if e == k {
+							ex = true
+						}
+					}
+					if !ex {
+						keys = append(keys, k)
+					}
 				}
 			}
 			sort.Strings(keys)
@@ -193,7 +205,7 @@ func cmdCheck(args []string) {
 	var units []*Unit
 	puOf := map[*Unit]PropUnit{}
 	for _, ur := range urefs {
-		u := verifyUnit(env, ur.key, env.funcs[ur.key], UnitOpts{LockMode: ur.pu.Lock, Sequential: ur.pu.Seq})
+		u := verifyUnit(env, ur.key, env.funcs[ur.key], UnitOpts{LockMode: ur.pu.Lock, Sequential: ur.pu.Seq, Guard: ur.pu.Guard})
 		if seenU[ur.key+"|unit"] {
 			// the same function in a second mode: keep obligation names apart
 			sfx := "[seq]"
@@ -217,7 +229,17 @@ func cmdCheck(args []string) {
 			unbound = append(unbound, "contract for missing function "+k)
 		}
 	}
+	unitOf := map[*Oblig]*Unit{}
+	for _, u := range units {
+		for _, o := range u.Obligs {
+			unitOf[o] = u
+		}
+	}
 	dischargeAll(units, cfg, func(o *Oblig) bool {
+		if pc.OnlySel && !o.Cover && !selected(o, puOf[unitOf[o]], *prop) {
+			o.Result = "not-attempted"
+			return false
+		}
 		return true
 	})
 	// proof by instantiation (C08): shards run in parallel worker processes
@@ -237,6 +259,7 @@ func cmdCheck(args []string) {
 	total, discharged := 0, 0
 	var failed []*Oblig
 	var assumedUnproved []string
+	notAttempted := 0
 	var vacuous []*Oblig
 	var slowest []sample
 	var samples []sample
@@ -266,7 +289,9 @@ func cmdCheck(args []string) {
 				continue
 			}
 			if !selected(o, puOf[u], *prop) {
-				if o.Result != "unsat" {
+				if o.Result == "not-attempted" {
+					notAttempted++
+				} else if o.Result != "unsat" {
 					// not this property's obligation, but later obligations of the unit assume it
 					assumedUnproved = append(assumedUnproved, o.Name)
 				}
@@ -454,6 +479,7 @@ func cmdCheck(args []string) {
 				"known_findings":           knownHit,
 				"bounded":                  pc.Bounded,
 				"assumed_unproved":         capList(assumedUnproved, 40),
+				"unselected_not_attempted": notAttempted,
 				"instances":                cfbInstancesInfo(cfbRes, *tier),
 				"explanation":              pc.Explanation,
 				"arith":                    "arith int: mathematical Int with explicit mod 2^w wrap for 8/16/32-bit types",
@@ -518,6 +544,19 @@ func writeReplay(vdir, prop string, o *Oblig, env *Env, repo string) replayInfo 
 	if o.Fn == "cfb" {
 		if src, ok := cfbReplayTest(o.Name); ok {
 			rr = runReplayTest(repo, src)
+		}
+	}
+	if o.Kind == "guard" || (prop == "C14" && o.Kind == "precondition") {
+		if src, marker, ok := raceReplayTest(o.Name); ok {
+			rr = runReplayTest(repo, src, "-race")
+			rr.Marker = marker
+			// reproduced only if the race detector's report involves the function of the obligation
+			rr.Reproduced = rr.Attempted && strings.Contains(rr.full, "DATA RACE") && strings.Contains(rr.full, marker)
+			if rr.Reproduced {
+				rr.Why = ""
+			} else if rr.Attempted {
+				rr.Why = "the race detector reported no race involving " + marker + " in this run (races are schedule dependent)"
+			}
 		}
 	}
 	verdict := "no-failing-input-found"
